@@ -197,6 +197,11 @@ def _convert_to_single_year(progset, reconciliation_year):
             prog.capacity_constraint.t = reconciliation_year.copy()
             prog.capacity_constraint.assumption = None
 
+        if prog.saturation.has_data:
+            prog.saturation.vals = prog.saturation.interpolate(reconciliation_year)
+            prog.saturation.t = reconciliation_year.copy()
+            prog.saturation.assumption = None
+
         # This is tricky - maybe we do want to retain other values? Depends on what ends up happening with coverage
         if prog.coverage.has_data:
             prog.coverage.vals = prog.coverage.interpolate(reconciliation_year)
